@@ -34,8 +34,8 @@ type exerciser struct {
 	entry string
 	extra map[string]any
 	// handed collects values handed out (safe mode) for later stability checks (C10/C14)
-	keep    bool
-	handed  []handedValue
+	keep   bool
+	handed []handedValue
 	// nestedSeen collects nested results obtained (C14/C15 accounting)
 	nestedSeen []*lazyproto.DecodeResult
 	violated   bool
